@@ -336,6 +336,13 @@ def observe_computed(job, computed, rowmaps):
                         free.remove(cand[0])
                         idmap[t.internal_id] = len(h) + 1 + fee_parents.index(cand[0])
         o = observe(cd, idmap, al)
+        # every fraction of the run, whatever the date filters (the filtered set is a view over the same list)
+        try:
+            o["fr_all"] = [[idmap[g.taxable_event.internal_id], idmap[g.acquired_lot.internal_id] if g.acquired_lot is not None else 0, al.amt(g.crypto_amount),
+                            al.money(g.taxable_event_fiat_amount_with_fee_fraction), al.money(g.fiat_cost_basis), al.money(g.fiat_gain), bool(g.is_long_term_capital_gains())]
+                           for g in cd.gain_loss_set._entry_list]  # pylint: disable=protected-access
+        except (KeyError, AttributeError):
+            o["fr_all"] = None
         o["ex"] = al.exact
         o["Q"] = Q
         res[asset] = o
